@@ -277,6 +277,9 @@ def wire(prop, tier, seed, replay, no_evidence=False):
             c.append("%s/drive-codec msgtype --from-step %d --out %s" % (b, 5 if q else 1, out))
             c.append("%s/drive-codec ignorable --messages %d --variants %d --seed %d --out %s" % (
                 b, 400 if q else 8000, 4 if q else 8, seed, out))
+        if prop == "C03":
+            c.append("%s/drive-codec fuzz --inputs %d --seed %d --out %s" % (b, 40000 if q else 2000000, seed, out))
+            c.append("%s/drive-codec roundtrip --messages %d --seed %d --out %s" % (b, 1000 if q else 20000, seed, out))
         if prop == "C04":
             c.append("%s/drive-codec roundtrip --messages %d --seed %d --out %s" % (b, 600 if q else 20000, seed, out))
             c.append("%s/drive-codec faults --what integrity --messages %d --seed %d --out %s" % (
@@ -329,9 +332,165 @@ def encoder(prop, tier, seed, replay):
         builds=("debug",) if tier == "quick" else ("debug", "release"))
 
 
+def reasm_c03(tier, seed):
+    """C03, reassembler part: no decode call panics for any chunking (streams include invalid headers
+    and buffers that are too small); every call is still predicted by Reassembly!Feed."""
+    wd = workdir("C03-reasm")
+    bindir = build_harness()
+    out = os.path.join(wd, "rec")
+    rc, o = sh("%s/drive-reasm --streams %d --random %d --seed %d --out %s" % (
+        bindir, 6 if tier == "quick" else 80, 40, seed + 77, out), timeout=3000)
+    stats = json.loads(o.strip().splitlines()[-1])
+    bad, consumed, total, _ = tlc_trace("TraceReasm.tla", "TraceReasm.cfg", os.path.join(out, "trace.ndjson"),
+                                        wd, timeout=6000, heap="12g")
+    npanic = 0
+    if bad:
+        recs = read_records(os.path.join(out, "trace.ndjson"))
+        for (p, line, trn, _) in bad:
+            if recs[line - 1].get("kind") == "panic":
+                npanic += 1
+                path = os.path.join(REPLAYS, "C03-reasm-%d-%d.json" % (seed, trn))
+                os.makedirs(REPLAYS, exist_ok=True)
+                with open(os.path.join(out, "cases.ndjson")) as f:
+                    case = next(json.loads(l) for l in f if json.loads(l)["tr"] == trn)
+                json.dump({"property": "C03", "kind": "reasm", "case": case}, open(path, "w"))
+                print("VIOLATION property=C03 replay=%s" % path)
+    return (1 if npanic else 0), {"decode_calls": total, "traces": stats["traces"], "panics": npanic}
+
+
+def values(prop, tier, seed, replay):
+    """C19: TLC enumerates call sequences of Values.tla (spec -> code), the harness replays them on the
+    real value types, TLC validates what was read back (code -> spec); plus the totality sweep."""
+    t0 = time.time()
+    wd = workdir(prop)
+    bindir = build_harness()
+    viol = []
+    states = trans = 0
+    total = nsched = 0
+    samples = []
+    distinct = set()
+    stats = []
+    if replay:
+        rep = json.load(open(replay))
+        jobs = [(rep["kind_name"], [rep["schedule"]])] if rep.get("kind") == "values-schedule" else []
+    else:
+        jobs = []
+        for kind in ("append", "set", "bytype"):
+            cfg = "MC_Values_%s.cfg" % kind
+            if tier == "thorough":
+                c5 = os.path.join(wd, "MC_Values_%s_d5.cfg" % kind)
+                open(os.path.join(os.path.dirname(os.path.abspath(__file__)), "..", "spec",
+                                  "MC_Values_%s_d5.cfg" % kind), "w").write(
+                    open(os.path.join(os.path.dirname(os.path.abspath(__file__)), "..", "spec", cfg)).read()
+                    .replace("Depth = 4", "Depth = 5"))
+                cfg = "MC_Values_%s_d5.cfg" % kind
+            r = tlc_model("MC_Values.tla", cfg, wd, workers=1, timeout=3000)
+            if r["violated"]:
+                raise ToolError("Values design model violates %s" % r["violated"])
+            states += r["distinct"]
+            trans += r["states"]
+            scheds = []
+            for line in r["out"].splitlines():
+                line = line.strip()
+                if line.startswith('"SCHED '):
+                    scheds.append(json.loads(json.loads(line)[len("SCHED "):]))
+            if not scheds:
+                raise ToolError("no schedules exported by TLC for kind " + kind)
+            jobs.append((kind, scheds))
+    for kind, scheds in jobs:
+        sf = os.path.join(wd, "sched-%s.ndjson" % kind)
+        with open(sf, "w") as f:
+            for sc in scheds:
+                f.write(json.dumps(sc) + "\n")
+        out = os.path.join(wd, "rec-" + kind)
+        rc, o = sh("%s/drive-seq --kind %s --sched %s --out %s" % (bindir, kind, sf, out), timeout=3000)
+        stats.append({"kind": kind, **json.loads(o.strip().splitlines()[-1])})
+        tracefile = os.path.join(out, "trace.ndjson")
+        bad, consumed, n, _ = tlc_trace("TraceValues.tla", "TraceValues.cfg", tracefile, wd, timeout=6000)
+        total += n
+        nsched += len(scheds)
+        for sc in scheds:
+            distinct.add(digest([kind, sc]))
+        if len(samples) < 3:
+            samples.append({"kind": kind, "schedule": scheds[len(scheds) // 2]})
+        if bad:
+            # map rejected lines back to their schedule
+            idx = -1
+            line_sched = []
+            with open(tracefile) as f:
+                for l in f:
+                    if '"vreset"' in l:
+                        idx += 1
+                    line_sched.append(idx)
+            seen = set()
+            for (p, line, _, _) in bad:
+                si = line_sched[line - 1]
+                if si not in seen:
+                    seen.add(si)
+                    viol.append((kind, scheds[si]))
+    tot_stats = None
+    if not replay and os.path.exists(os.path.join(bindir, "drive-values")):
+        out = os.path.join(wd, "rec-totality")
+        rc, o = sh("%s/drive-values totality --seed %d --per-api %d --out %s" % (
+            bindir, seed, 30 if tier == "quick" else 400, out), timeout=6000)
+        tot_stats = json.loads(o.strip().splitlines()[-1])
+        tracefile = os.path.join(out, "trace.ndjson")
+        bad, consumed, n, _ = tlc_trace("TraceValues.tla", "TraceValues.cfg", tracefile, wd, timeout=6000,
+                                        heap="12g")
+        total += n
+        if bad:
+            recs = read_records(tracefile)
+            seen = set()
+            for (p, line, _, _) in bad:
+                r = recs[line - 1]
+                if r["api"] not in seen:
+                    seen.add(r["api"])
+                    viol.append(("totality", r))
+    viol.sort(key=lambda v: len(json.dumps(v[1])))
+    for kind, sc in viol[:3]:
+        if replay:
+            path = replay
+        else:
+            os.makedirs(REPLAYS, exist_ok=True)
+            path = os.path.join(REPLAYS, "%s-%d-%s.json" % (prop, seed, digest([kind, sc])))
+            if kind == "totality":
+                json.dump({"property": prop, "kind": "totality", "record": sc}, open(path, "w"), indent=1)
+            else:
+                json.dump({"property": prop, "kind": "values-schedule", "kind_name": kind, "schedule": sc},
+                          open(path, "w"), indent=1)
+        print("VIOLATION property=%s replay=%s" % (prop, path))
+        log("  %s %s" % (kind, json.dumps(sc)[:300]))
+    if not replay:
+        write_evidence(prop, tier, seed, "model_checking", {
+            "states": states, "transitions": trans, "traces_validated_against_impl": nsched,
+            "samples": samples, "evaluations": total, "distinct_nontrivial": len(distinct),
+            "rule": "clone independence: TLC enumerates EVERY call sequence new/clone/add/remove up to the depth "
+                    "bound over 3 object slots for the three mutation disciplines (PasswordAlgorithms, "
+                    "UnknownAttributes, stun_agent::StunAttributes); each is replayed on the real type and every "
+                    "read-back is compared with the specification by TLC; totality: every public constructor / "
+                    "accessor / conversion swept under catch_unwind (exhaustive for u8/u16 domains, hostile and "
+                    "boundary strings otherwise), TLC accepts only ok|err outcomes; distinct = distinct schedules",
+            "driver": stats, "totality": tot_stats, "exhaustive": True,
+        }, time.time() - t0, len(viol), ASSUME)
+    return 1 if viol else 0
+
+
 def run(prop, tier, seed, replay=None):
+    if prop == "C19":
+        return values(prop, tier, seed, replay)
     if prop in ("C01", "C02", "C04"):
         return wire(prop, tier, seed, replay)
+    if prop == "C03":
+        import client
+        if replay:
+            rep = json.load(open(replay))
+            if rep.get("kind") == "client-schedule":
+                return client.run(prop, tier, seed, replay)
+            return wire(prop, tier, seed, replay)
+        rc1, cov = wire(prop, tier, seed, None, no_evidence=True)
+        rc3, cov3 = reasm_c03(tier, seed)
+        rc2 = client.run(prop, tier, seed, None, extra_cov={"decoder_fuzz": cov, "reassembler": cov3})
+        return 1 if (rc1 or rc2 or rc3) else 0
     if prop == "C10":
         # codec half here, client half (enforcement by the client) through the client pipeline
         import client
